@@ -146,3 +146,46 @@ E("C13", "E1-guards-reordered", (TR, "        if np.isnan(bid_price):\n         
 E("C13", "E2-quantity-ne-zero-form", (BR, "            if quantity == 0:\n                value = 0.0\n            else:\n                order_book = self.exchange[contract]\n                liq_price = (\n                    order_book.bid_price if quantity >= 0 else order_book.ask_price\n                )\n                if np.isnan(liq_price):\n                    raise ValueError(\n                        \"Missing liquidation transaction_price for {}.\".format(contract)\n                    )\n                if kind == \"notional\":\n                    value = quantity * liq_price * contract.multiplier\n                elif kind == \"liquidation\":\n                    value = contract.cash_requirement * quantity * liq_price * contract.multiplier\n                    value += self._holdings_margins[contract]\n                else:\n                    raise ValueError(\"Unsupported 'kind'.\")\n",
       "            value = 0.0\n            if quantity != 0:\n                order_book = self.exchange[contract]\n                liq_price = (\n                    order_book.bid_price if quantity >= 0 else order_book.ask_price\n                )\n                if np.isnan(liq_price):\n                    raise ValueError(\n                        \"Missing liquidation transaction_price for {}.\".format(contract)\n                    )\n                if kind == \"notional\":\n                    value = quantity * liq_price * contract.multiplier\n                elif kind == \"liquidation\":\n                    value = contract.cash_requirement * quantity * liq_price * contract.multiplier\n                    value += self._holdings_margins[contract]\n                else:\n                    raise ValueError(\"Unsupported 'kind'.\")\n"))
 E("C13", "E3-trades-local", (BR, "        rebalancing.trades = rebalancing.make_trades(self)\n        for trade in rebalancing.trades:\n            self.transact(trade)", "        trades = rebalancing.make_trades(self)\n        rebalancing.trades = trades\n        for trade in trades:\n            self.transact(trade)"))
+
+# ------------------------------------------------------------------ C01
+M("C01", "M1-notional-no-multiplier", (TR, "        self.notional = self.acq_price * quantity * contract.multiplier", "        self.notional = self.acq_price * quantity"), "S1.trade-notional")
+M("C01", "M2-fee-no-abs", (FE, "        return self.fixed + abs(trade.notional) * self.proportional", "        return self.fixed + trade.notional * self.proportional"), "S6.commission-formula")
+M("C01", "M3-no-premark", (BR, "        self.marking_to_market(trade.contract)\n\n        # Calculate target _margin requirements.", "        # Calculate target _margin requirements."), "S4")
+M("C01", "M4-cash-gets-wrong-leg", (BR, "            self._holdings_quantity[self.base_currency] += excess_margin", "            self._holdings_quantity[self.base_currency] += current_margin"), "S2.variation-margin-only-flow")
+M("C01", "M5-valuation-side-swapped", (BR, "                    order_book.bid_price if quantity >= 0 else order_book.ask_price", "                    order_book.ask_price if quantity >= 0 else order_book.bid_price"), "S3.valuation-side")
+M("C01", "M6-return-live-margins", (BR, "        return dict(self._holdings_margins)", "        return self._holdings_margins"), "S7.ledger-does-not-escape")
+M("C01", "M7-reward-writes-ledger", (RW, "        nlv_last_rebalancing = env.broker.track_record[-1].context_pre.nlv\n        nlv_now = env.broker.net_liquidation_value()\n        return float(nlv_now - nlv_last_rebalancing)", "        nlv_last_rebalancing = env.broker.track_record[-1].context_pre.nlv\n        nlv_now = env.broker.net_liquidation_value()\n        env.broker._holdings_quantity[env.broker.base_currency] += 0.0\n        return float(nlv_now - nlv_last_rebalancing)"), "S7.ledger-writers")
+M("C01", "M8-trade-mid-price", (RB, "                bid_price=broker.exchange[contract].bid_price,", "                bid_price=broker.exchange[contract].mid_price,"), "S8.trade-gets-bid_price")
+M("C01", "M9-F1-regression", (BR, "                    value = contract.cash_requirement * quantity * liq_price * contract.multiplier", "                    value = contract.cash_requirement * quantity * liq_price"), "S6.value-liquidation")
+M("C01", "M10-valuation-mid", (BR, "                liq_price = (\n                    order_book.bid_price if quantity >= 0 else order_book.ask_price\n                )", "                liq_price = order_book.mid_price"), "S3.valuation-side")
+M("C01", "M11-cost-of-cash-twice-commission", (BR, "        self._holdings_quantity[self.base_currency] -= trade.cost_of_commissions\n", "        self._holdings_quantity[self.base_currency] -= trade.cost_of_commissions * 2\n"), "S2.cash-margin-zero-sum")
+M("C01", "M12-margin-leg-dropped", (BR, "        self._holdings_quantity[self.base_currency] -= margin_diff\n", ""), "S2.cash-margin-zero-sum")
+M("C01", "M13-position-half", (BR, "        self._holdings_quantity[trade.contract] += trade.quantity\n", "        self._holdings_quantity[trade.contract] += trade.quantity / 2\n"), "S2.position-moves-by-quantity")
+M("C01", "M14-trade-side-swapped", (TR, "        self.acq_price = ask_price if quantity > 0 else bid_price", "        self.acq_price = bid_price if quantity > 0 else ask_price"), "S3.trade-side")
+M("C01", "M15-profit-no-multiplier", (BR, "            profit = quantity * contract.multiplier * price_change", "            profit = quantity * price_change"), "S2.variation-margin-only-flow")
+M("C01", "M16-valuation-no-mark", (BR, "        self.marking_to_market()\n        holdings_values = self.holdings_values(kind=\"liquidation\")", "        holdings_values = self.holdings_values(kind=\"liquidation\")"), "S5.valuation-marks-first")
+M("C01", "M17-spread-cost-mid", (TR, "            abs(quantity) * contract.multiplier * (ask_price - bid_price)", "            abs(quantity) * contract.multiplier * (ask_price - bid_price) / 2"), "S1.trade-cost_of_spread")
+M("C01", "M18-cash-cost-no-requirement", (TR, "        self.cost_of_cash = self.notional * contract.cash_requirement", "        self.cost_of_cash = self.notional"), "S1.trade-cost_of_cash")
+M("C01", "M19-liq-margin-dropped", (BR, "                    value += self._holdings_margins[contract]\n", ""), "S6.value-liquidation")
+M("C01", "M20-reference-not-reset-after-mark", (BR, "            self._last_marking_to_market_price[contract] = liq_price\n", ""), "S2.marking-equations")
+M("C01", "M21-feature-transacts", (LB, "        holdings = self.broker.holdings_weights()\n", "        holdings = self.broker.holdings_weights()\n        self.broker.marking_to_market()\n        self.broker._last_accrual = None\n"), "S7.ledger-writers")
+M("C01", "M22-fees-swapped", (FE, "        self.proportional = proportional\n        self.fixed = fixed", "        self.proportional = fixed\n        self.fixed = proportional"), "S6.fees")
+E("C01", "E1-split-debit", (BR, "        self._holdings_quantity[self.base_currency] -= margin_diff\n", "        half = margin_diff / 2\n        self._holdings_quantity[self.base_currency] -= half\n        self._holdings_quantity[self.base_currency] -= margin_diff - half\n"))
+E("C01", "E2-debits-reordered", (BR, "        self._holdings_quantity[self.base_currency] -= trade.cost_of_commissions\n\n        # Acquisition.\n        self._holdings_quantity[self.base_currency] -= trade.cost_of_cash\n", "        self._holdings_quantity[self.base_currency] -= trade.cost_of_cash\n        self._holdings_quantity[self.base_currency] -= trade.cost_of_commissions\n"))
+E("C01", "E3-merged-debit", (BR, "        self._holdings_quantity[self.base_currency] -= trade.cost_of_cash\n        self._holdings_quantity[self.base_currency] -= margin_diff\n", "        self._holdings_quantity[self.base_currency] -= trade.cost_of_cash + margin_diff\n"))
+E("C01", "E4-rename-locals", (BR, "            price_change = liq_price - last_price\n            profit = quantity * contract.multiplier * price_change", "            delta = liq_price - last_price\n            profit = contract.multiplier * delta * quantity"))
+E("C01", "E5-notional-reordered", (TR, "        self.notional = self.acq_price * quantity * contract.multiplier", "        self.notional = contract.multiplier * (quantity * self.acq_price)"))
+
+# ------------------------------------------------------------------ C05
+M("C05", "M1-no-abs", (BR, "                liq_price * abs(quantity) * contract.multiplier * contract.margin_requirement", "                liq_price * quantity * contract.multiplier * contract.margin_requirement"), "S1.margin-after-mark")
+M("C05", "M2-sweep-leg-dropped", (BR, "            self._holdings_margins[contract] -= excess_margin\n", ""), None)
+M("C05", "M3-no-margin-guard", (BR, "            if contract.margin_requirement == 0:\n                continue\n", ""), "S4.no-margin-no-writes")
+M("C05", "M4-no-negative-raise", (BR, "            if self._holdings_margins[contract] < 0:\n                raise ValueError(\n                    \"Unexpected situation during sanity check. \"\n                    \"Margin for {} is negative: {}\"\n                    \"\".format(contract, self._holdings_margins[contract])\n                )\n", ""), "S2")
+M("C05", "M5-weights-over-deposit", (BR, "            contract: value / nlv\n", "            contract: value / self._initial_deposit\n"), "S6.weight-is-notional-over-nlv")
+M("C05", "M6-margin-on-trade-no-requirement", (BR, "            * trade.contract.multiplier\n            * trade.contract.margin_requirement\n", "            * trade.contract.multiplier\n"), "S1.margin-after-trade")
+M("C05", "M7-margin-mid", (BR, "            liq_price = self.exchange[contract].liq_price(quantity)", "            liq_price = self.exchange[contract].mid_price"), None)
+M("C05", "M8-target-uses-last-price", (BR, "                liq_price * abs(quantity) * contract.multiplier * contract.margin_requirement", "                last_price * abs(quantity) * contract.multiplier * contract.margin_requirement"), "S1.margin-after-mark")
+M("C05", "M9-weights-liquidation-kind", (BR, "        holdings_notional_values = self.holdings_values()\n", "        holdings_notional_values = self.holdings_values(kind=\"liquidation\")\n"), "S6.weight-is-notional-over-nlv")
+M("C05", "M10-marking-target-qty-pretrade", (BR, "        target_quantity = abs(self._holdings_quantity[trade.contract] + trade.quantity)", "        target_quantity = abs(self._holdings_quantity[trade.contract])"), "S1.margin-after-trade")
+E("C05", "E1-guard-not", (BR, "            if contract.margin_requirement == 0:\n                continue\n", "            if not contract.margin_requirement:\n                continue\n"))
+E("C05", "E2-target-reordered", (BR, "                liq_price * abs(quantity) * contract.multiplier * contract.margin_requirement", "                contract.margin_requirement * contract.multiplier * abs(quantity) * liq_price"))
